@@ -179,12 +179,34 @@ def run(ctx):
 
     # ---- (a) expand_intermediates ---------------------------------------
     n_exp = 100 if quick else 600
-    for k in range(n_exp):
+    # systematic stream: every intermediate once (and, order <= 2, fully)
+    # expanded inside a product that carries EVERY other letter of the index
+    # alphabets as target index - a name leaking out of a definition is
+    # captured by one of them
+    systematic = []
+    for nm_, cls_ in itmds.items():
+        if nm_ == "t4_2":
+            continue
+        occ, virt = G.pool("o", 7), G.pool("v", 8)
+        dflt = get_symbols("".join(cls_.default_idx))
+        if any(s_.space not in ("occ", "virt") for s_ in dflt):
+            continue
+        io, iv = iter(occ), iter(virt)
+        idx_ = [next(io) if s_.space == "occ" else next(iv) for s_ in dflt]
+        t_ = cls_.tensor(indices=idx_, return_sympy=True)
+        ro = tuple(x for x in occ if x not in idx_)
+        rv = tuple(x for x in virt if x not in idx_)
+        e_ = t_ * NonSymmetricTensor("wo", ro) * NonSymmetricTensor("wv", rv)
+        tg_ = list(idx_) + list(ro) + list(rv)
+        systematic.append((e_, tg_, nm_, False))
+        if cls_.order <= 2 and cls_.itmd_type != "re_residual":
+            systematic.append((e_, tg_, nm_, True))
+    for k in range(n_exp + len(systematic)):
         occ, virt = G.pool("o", 8), G.pool("v", 8)
         ntg = rng.choice([(0, 0), (1, 1), (2, 2)])
         tg = occ[:ntg[0]] + virt[:ntg[1]]
         pools = {"o": occ[:ntg[0] + 4], "v": virt[:ntg[1] + 4]}
-        name = rng.choice(names_low if quick or rng.random() < 0.7
+        name = rng.choice(names_low if rng.random() < 0.6
                           else [n for n in itmds if n != "t4_2"])
         t, _ = itmd_tensor(itmds[name], rng, pools)
         term = t ** (2 if rng.random() < 0.15 else 1)
@@ -207,6 +229,10 @@ def run(ctx):
             extra = extra * NonSymmetricTensor("w", tuple(miss2))
         e = term + (extra if rng.random() < 0.4 else 0)
         fully = rng.random() < 0.6
+        if quick and itmds[name].order > 2:
+            fully = False      # third order: once expanded only (size)
+        if k >= n_exp:
+            e, tg, name, fully = systematic[k - n_exp]
         E = Expr(e, real=True, target_idx=tg)
         if not wellformed(E, tg):
             continue
